@@ -21,6 +21,7 @@ PROPS["C05"] = {
             "TestC05Slices": T(24000, 400000),
             "TestC05Unpacked": T(80000, 2000000),
             "TestC05Lengths": LIST(),
+            "TestC05NilEntropy": LIST(),
         },
     }],
 }
